@@ -382,6 +382,103 @@ impl<'a> G<'a> {
         Some(*rng.pick(&moves))
     }
 
+    /// a four-move cycle a, b, a⁻¹, b⁻¹ of reversible moves from the current position
+    fn find_cycle(&mut self) -> Option<[Move; 4]> {
+        let b0 = self.last();
+        let prefer_kr = b0.raw().castling.index() != 0 && self.rng.chance(1, 2);
+        let rev = |m: &Move| -> Option<Move> {
+            Move::new(m.kind(), m.src_cell(), m.dst(), m.src()).ok()
+        };
+        let ma = match Self::reversible(&b0, prefer_kr, self.rng) {
+            Some(m) => m,
+            None => return None,
+        };
+        let b1 = match safe_make(&b0, ma) {
+            Some(b) => b,
+            None => return None,
+        };
+        let mb = match Self::reversible(&b1, prefer_kr, self.rng) {
+            Some(m) => m,
+            None => return None,
+        };
+        let b2 = match safe_make(&b1, mb) {
+            Some(b) => b,
+            None => return None,
+        };
+        let (ma2, mb2) = match (rev(&ma), rev(&mb)) {
+            (Some(x), Some(y)) => (x, y),
+            _ => return None,
+        };
+        if ma2.validate(&b2).is_err() {
+            return None;
+        }
+        let b3 = match safe_make(&b2, ma2) {
+            Some(b) => b,
+            None => return None,
+        };
+        if mb2.validate(&b3).is_err() {
+            return None;
+        }
+        Some([ma, mb, ma2, mb2])
+    }
+
+    /// C14: one position occurring well over five times, then taken back step by step with the calculation
+    /// queried on the way down (counts must go down exactly as they went up), then partly replayed
+    fn act_deep_repeat(&mut self) {
+        self.ensure_open();
+        let seq = match self.find_cycle() {
+            Some(x) => x,
+            None => return,
+        };
+        let cycles = 5 + self.rng.usize(4);
+        let mut pushed = 0usize;
+        'outer: for _ in 0..cycles {
+            for m in seq {
+                if self.full() || self.sim.cur.is_finished() {
+                    break 'outer;
+                }
+                let t = if self.rng.chance(2, 3) {
+                    format!("pm {}", mv_fmt(&m))
+                } else {
+                    format!("pu {}", str_enc(&m.to_string()))
+                };
+                self.step(t);
+                pushed += 1;
+            }
+            if self.rng.chance(1, 3) {
+                self.step("calc".to_string());
+            }
+        }
+        self.step("calc".to_string());
+        let pops = 1 + self.rng.usize(pushed.max(1));
+        for i in 0..pops {
+            self.step("pop".to_string());
+            if i + 1 == pops || self.rng.chance(1, 3) {
+                self.step("calc".to_string());
+            }
+        }
+        match self.rng.usize(3) {
+            0 => {
+                self.step("auto s".to_string());
+            }
+            1 => {
+                self.step("auto r".to_string());
+            }
+            _ => {
+                // replay a part of the cycle from wherever the pops stopped
+                let off = (pushed - pops.min(pushed)) % 4;
+                for k in 0..(1 + self.rng.usize(6)) {
+                    if self.sim.cur.is_finished() {
+                        break;
+                    }
+                    let m = seq[(off + k) % 4];
+                    self.step(format!("pm {}", mv_fmt(&m)));
+                }
+                self.step("calc".to_string());
+            }
+        }
+    }
+
     fn act_shuffle(&mut self) {
         self.ensure_open();
         // optionally start from a double pawn step so that the first occurrence of the
@@ -397,41 +494,10 @@ impl<'a> G<'a> {
                 self.step(format!("pm {}", mv_fmt(&m)));
             }
         }
-        let b0 = self.last();
-        let prefer_kr = b0.raw().castling.index() != 0 && self.rng.chance(1, 2);
-        let rev = |m: &Move| -> Option<Move> {
-            Move::new(m.kind(), m.src_cell(), m.dst(), m.src()).ok()
-        };
-        let ma = match Self::reversible(&b0, prefer_kr, self.rng) {
-            Some(m) => m,
+        let [ma, mb, ma2, mb2] = match self.find_cycle() {
+            Some(x) => x,
             None => return,
         };
-        let b1 = match safe_make(&b0, ma) {
-            Some(b) => b,
-            None => return,
-        };
-        let mb = match Self::reversible(&b1, prefer_kr, self.rng) {
-            Some(m) => m,
-            None => return,
-        };
-        let b2 = match safe_make(&b1, mb) {
-            Some(b) => b,
-            None => return,
-        };
-        let (ma2, mb2) = match (rev(&ma), rev(&mb)) {
-            (Some(x), Some(y)) => (x, y),
-            _ => return,
-        };
-        if ma2.validate(&b2).is_err() {
-            return;
-        }
-        let b3 = match safe_make(&b2, ma2) {
-            Some(b) => b,
-            None => return,
-        };
-        if mb2.validate(&b3).is_err() {
-            return;
-        }
         let cycles = 1 + self.rng.usize(5);
         let seq = [ma, mb, ma2, mb2];
         'outer: for _ in 0..cycles {
@@ -639,6 +705,37 @@ pub fn gen_script(rng: &mut Rng, start: &Pos, flavor: Flavor, max_steps: usize) 
 
 /// Equality probes (C13): chains built from a DIFFERENT start position with the same UCI list (`alt`), and
 /// reversible cycles from a start whose counters are saturated, each followed by `eq`.
+/// C14: scripts built around `act_deep_repeat`
+pub fn gen_deep_repeat(rng: &mut Rng, start: &Pos) -> Script {
+    crate::set_current(&format!("chain {} ; <script being generated>", start.raw_text()));
+    let mut g = G {
+        rng,
+        sim: ChainSim::new(start.board.clone()),
+        steps: Vec::new(),
+        obs: BTreeMap::new(),
+        max: 150,
+        st_pct: 10,
+    };
+    let pre = g.rng.usize(4);
+    for _ in 0..pre {
+        g.act_push_legal();
+    }
+    g.act_deep_repeat();
+    if g.steps.last().map(|s| s.as_str()) != Some("st") {
+        g.emit("st".to_string());
+    }
+    let final_len = g.sim.cur.len();
+    let steps = g.steps;
+    let obs = g.obs;
+    let line = format!("chain {} ; {}", start.raw_text(), steps.join(" ; "));
+    Script {
+        line,
+        steps,
+        final_len,
+        obs,
+    }
+}
+
 pub fn gen_eq_probe(rng: &mut Rng, start0: &Pos) -> Script {
     use owlchess::{Cell, Coord, Piece};
     // variant B: saturate both counters so that a reversible cycle restores the raw position exactly
